@@ -55,7 +55,7 @@ func TestDecodeHandWritten(t *testing.T) {
 		{"pointer to terminator as suffix", []byte{1, 'a', 0, 1, 'b', 0xc0, 2}, MustAccept, "", []string{"a", "b"}},
 		{"pointer to terminator alone", []byte{1, 'a', 0, 0xc0, 2}, MayReject, WhyRoot, []string{"a", ""}},
 		{"255 octets", long255, MustAccept, "", []string{x63 + "." + x63 + "." + x63 + "." + strings.Repeat("y", 61)}},
-		{"256 octets", long256, Unspecified, WhyLong, nil},
+		{"256 octets", long256, Reject, WhyLong, nil},
 		{"256 octets then overrun", cat(long256, []byte{4, 'a'}), Reject, WhyOverrun, nil},
 		{"reserved before overrun", []byte{0x40, 3, 'a'}, Unspecified, WhyReserved, nil},
 		{"label bytes look like pointer", []byte{2, 0xc0, 0x00, 0}, MustAccept, "", []string{"\xc0\x00"}},
